@@ -273,6 +273,19 @@ pub fn gen_adp_history(rng: &mut Rng, chain: Vec<Stage>, batched: bool, g: &AGen
         } else {
             gen_vop(rng, model.len(), g.vmax, false, g.trav, g.maxlen)
         };
+        // colossal mode: half of the index-addressed updates aim at the far end (beyond position 2^16)
+        let vop = if g.init_max > 60_000 && model.len() > 1000 && rng.chance(1, 2) {
+            let far = |rng: &mut Rng, len: usize| len - 1 - rng.below(len.min(4500) - 1);
+            match vop {
+                VOp::Set(_, v) => VOp::Set(far(rng, model.len()), v),
+                VOp::Remove(_) => VOp::Remove(far(rng, model.len())),
+                VOp::Insert(_, v) => VOp::Insert(far(rng, model.len()), v),
+                VOp::Truncate(_) => VOp::Truncate(far(rng, model.len())),
+                other => other,
+            }
+        } else {
+            vop
+        };
         apply_model(&mut model, &vop);
         ops.push(AOp::Src(vop));
     }
@@ -629,7 +642,7 @@ pub fn run_c10(p: &Params) -> Outcome {
     }, &nt));
     // colossal vectors: more than 2^16 items (16-bit indices, offsets and counters inside the library overflow here)
     let gcol = AGen { caps: &[16], maxlen: 71_000, init_max: 70_000, vmax: 20_000, min_ops: 6, max_ops: 16, txn_pct: 5, ..g.clone() };
-    out.merge(rand_adp("C10", p, "c10-rand-colossal", p.n(32, 400), &gcol, &|rng| {
+    out.merge(rand_adp("C10", p, "c10-rand-colossal", p.n(60, 600), &gcol, &|rng| {
         // (masks over v % 4; the colossal generator also makes vectors whose tail is rejected as a whole: see gen)
         let m = [0b0101u8, 0b1110, 0b0001, 0b1000][rng.below(4)];
         (vec![if rng.chance(1, 2) { Stage::Filter(m) } else { Stage::FilterMap(m) }], rng.chance(1, 2))
